@@ -1133,6 +1133,8 @@ class AttributePolicy(object):
                 (e.g., 'Unique Identifier'). Required.
         """
         rule_set = self._attribute_rule_sets.get(attribute)
+        if rule_set is None:
+            return False
         if rule_set.version_deprecated:
             if self._version >= rule_set.version_deprecated:
                 return True
@@ -1153,6 +1155,8 @@ class AttributePolicy(object):
                 otherwise.
         """
         rule_set = self._attribute_rule_sets.get(attribute)
+        if rule_set is None:
+            return False
         return rule_set.deletable_by_client
 
     def is_attribute_modifiable_by_client(self, attribute):
@@ -1167,6 +1171,8 @@ class AttributePolicy(object):
                 otherwise.
         """
         rule_set = self._attribute_rule_sets.get(attribute)
+        if rule_set is None:
+            return False
         return rule_set.modifiable_by_client
 
     def is_attribute_applicable_to_object_type(self, attribute, object_type):
@@ -1184,6 +1190,8 @@ class AttributePolicy(object):
         """
         # TODO (peterhamilton) Handle applicability between certificate types
         rule_set = self._attribute_rule_sets.get(attribute)
+        if rule_set is None:
+            return False
         if object_type in rule_set.applies_to_object_types:
             return True
         else:
@@ -1199,6 +1207,8 @@ class AttributePolicy(object):
         """
         # TODO (peterhamilton) Handle multivalue swap between certificate types
         rule_set = self._attribute_rule_sets.get(attribute)
+        if rule_set is None:
+            return False
         return rule_set.multiple_instances_permitted
 
     def get_all_attribute_names(self):
